@@ -1777,9 +1777,13 @@ impl OverlayFs {
             Ok(false)
         })?;
 
-        let (h, _, _) = lower_layer.open(ctx, lower_inode, libc::O_RDONLY as u32, 0)?;
-
-        let lower_handle = h.unwrap_or(0);
+        // A layer that negotiated ZERO_MESSAGE_OPEN answers OPEN with ENOSYS and serves handle-less
+        // requests instead (as opendir / release are already treated in this file).
+        let lower_handle = match lower_layer.open(ctx, lower_inode, libc::O_RDONLY as u32, 0) {
+            Ok((h, _, _)) => h.unwrap_or(0),
+            Err(e) if e.raw_os_error() == Some(libc::ENOSYS) => 0,
+            Err(e) => return Err(e),
+        };
 
         // need to use work directory and then rename file to
         // final destination for atomic reasons.. not deal with it for now,
@@ -1808,7 +1812,12 @@ impl OverlayFs {
             offset += ret;
         }
         // close handles
-        lower_layer.release(ctx, lower_inode, 0, lower_handle, true, true, None)?;
+        if let Err(e) = lower_layer.release(ctx, lower_inode, 0, lower_handle, true, true, None) {
+            // Ignore ENOSYS (no OPEN, no RELEASE).
+            if e.raw_os_error() != Some(libc::ENOSYS) {
+                return Err(e);
+            }
+        }
 
         file.seek(SeekFrom::Start(0))?;
         offset = 0;
